@@ -12,7 +12,8 @@ From Coq Require Import String Ascii.
 From Coq Require Import List Arith ZArith Bool.
 Import ListNotations.
 Require Import MD.Topo.Model MD.Topo.Carriers MD.Topo.Run MD.Topo.Basics MD.Topo.Build MD.Topo.AbsWalk MD.Topo.Copy
-  MD.Topo.EqHash MD.Topo.Frame MD.Topo.Independent MD.Topo.Subset MD.Topo.Witness.
+  MD.Topo.EqHash MD.Topo.Frame MD.Topo.Independent MD.Topo.Subset MD.Topo.CarrierProofs MD.Topo.BuildFrom MD.Topo.Join
+  MD.Topo.Witness.
 
 (* ---------------------------------------------------------------- copy / deepcopy *)
 (* the repaired copy() preserves every atom (name, element, serial, index), residue (name, number,
@@ -146,6 +147,130 @@ Theorem subset_abs_current_refuted :
                            abs h' t' <> Some (subset_v keep v).
 Proof. exact subset_abs_cur_refuted. Qed.
 Print Assumptions subset_abs_current_refuted.
+
+(* ---------------------------------------------------------------- join / stack *)
+(* repaired join(other, keep_resSeq=True): self's chains followed by other's chains (ids kept) renumbered
+   after them, self's bonds followed by other's bonds shifted by the number of atoms of self; nothing
+   that existed is modified and everything the result reaches is fresh.
+   partial: keep_resSeq=False (residue numbers continued from the last residue of self) is modelled and
+   compared with mdtraj on every run, but this theorem does not cover it *)
+Theorem join_abs_partial : forall h t other h' t' va vo,
+  wfo h t -> wfo h other -> abs h t = Some va -> abs h other = Some vo ->
+  join flags_fix h t other true = Some (h', t') ->
+  abs h' t' = Some (join_v va vo) /\ agree (h_next h) h h' /\ (forall l, In l (reach h' t') -> h_next h <= l).
+Proof. exact Join.join_abs. Qed.
+Print Assumptions join_abs_partial.
+
+Theorem join_abs_current_refuted :
+  exists h t o h' t' va vo, wfo h t /\ wfo h o /\ abs h t = Some va /\ abs h o = Some vo /\
+                            join flags_cur h t o true = Some (h', t') /\ abs h' t' <> Some (join_v va vo).
+Proof. exact join_abs_cur_refuted. Qed.
+Print Assumptions join_abs_current_refuted.
+
+(* ---------------------------------------------------------------- carriers *)
+(* a topology decoded from any carrier (from_dataframe, HDF5 JSON, PDB reader) is built by the add_* calls:
+   chains/residues/atoms are numbered 0,1,2,..., bonds are oriented by index, only fresh objects are
+   allocated and nothing that existed is modified *)
+Theorem build_from_abs : forall h d h' t',
+  hwf h -> build_from h d = Some (h', t') ->
+  abs h' t' = Some {| vt_chains := num_chains 0 0 0 (fst d); vt_bonds := map orient (snd d) |} /\
+  agree (h_next h) h h' /\ hwf h' /\ (forall l, In l (reach h' t') -> h_next h <= l).
+Proof. exact BuildFrom.build_from_abs. Qed.
+Print Assumptions build_from_abs.
+
+(* HDF5 JSON: for every topology numbered along the walk, what comes back is the source with exactly the
+   fields the schema lacks erased (full = false: serial, chain id, bond type, bond order); with a schema
+   holding them (full = true) nothing is lost *)
+Theorem h5_roundtrip : forall full v,
+  normal (vt_chains v) ->
+  num_chains 0 0 0 (fst (h5_round full v)) = map (erase_chain full) (vt_chains v) /\
+  snd (h5_round full v) =
+  map (fun b => if full then (vb_i b, vb_j b, vb_type b, vb_order b) else (vb_i b, vb_j b, None, None)) (vt_bonds v).
+Proof. exact CarrierProofs.h5_roundtrip. Qed.
+Print Assumptions h5_roundtrip.
+
+Theorem h5_roundtrip_full : forall v, normal (vt_chains v) -> num_chains 0 0 0 (fst (h5_round true v)) = vt_chains v.
+Proof. exact CarrierProofs.h5_roundtrip_full. Qed.
+Print Assumptions h5_roundtrip_full.
+
+(* as found: serial, chain id and bond type/order do not survive although JSON could hold them *)
+Theorem h5_roundtrip_current_refuted :
+  exists v, normal (vt_chains v) /\
+            (num_chains 0 0 0 (fst (h5_round false v)) <> vt_chains v) /\
+            (map orient (snd (h5_round false v)) <> vt_bonds v).
+Proof. exact h5_roundtrip_cur_refuted. Qed.
+Print Assumptions h5_roundtrip_current_refuted.
+
+(* data frame (repaired from_dataframe), partial by nature of the carrier: exact when no chain/residue is
+   empty and consecutive residues of a chain differ in (resSeq, resName); chain ids have no column.
+   Atoms (serials included), residues and bonds with type and order come back unchanged *)
+Theorem df_roundtrip_partial : forall v,
+  normal (vt_chains v) -> df_exact v -> Forall vbond_ok (vt_bonds v) ->
+  num_chains 0 0 0 (fst (df_round true v)) =
+    map (fun c => {| vc_index := vc_index c; vc_id := None; vc_res := vc_res c |}) (vt_chains v) /\
+  snd (df_round true v) = map bond4 (vt_bonds v).
+Proof. exact CarrierProofs.df_roundtrip_partial. Qed.
+Print Assumptions df_roundtrip_partial.
+
+Example df_exact_witness : normal (vt_chains df_v) /\ df_exact df_v /\ Forall vbond_ok (vt_bonds df_v).
+Proof. exact df_v_exact. Qed.
+Print Assumptions df_exact_witness.
+
+(* PDB, as found: CONECT records carry numbers that are not the numbers of the ATOM records (single chain
+   with serials 5 and 9), the bond is lost on reload; the repaired writer keeps it.
+   partial: for the repaired writer only these witnesses are proved; agreement of CONECT and ATOM
+   numbering on all topologies is checked by the correspondence runs, not by a theorem *)
+Theorem pdb_conect_agrees_current_refuted :
+  let st := run flags_cur pdb_ops in
+  exists recs, pdb_write flags_cur true (st_heap st) (slot st 0) = Some recs /\ conect_refers_to_atoms recs = false.
+Proof. exact pdb_conect_cur_refuted. Qed.
+Print Assumptions pdb_conect_agrees_current_refuted.
+
+Theorem pdb_roundtrip_bond_current_lost :
+  let st := run flags_cur (pdb_ops ++ [OPdb 0 true])%list in
+  option_map vt_bonds (abs (st_heap st) (slot st 1)) = Some [].
+Proof. exact pdb_roundtrip_bond_cur_lost. Qed.
+Print Assumptions pdb_roundtrip_bond_current_lost.
+
+Example pdb_roundtrip_bond_fixed_kept :
+  let st := run flags_fix (pdb_ops ++ [OPdb 0 true])%list in
+  option_map vt_bonds (abs (st_heap st) (slot st 1)) = Some [{| vb_i := 0; vb_j := 1; vb_type := None; vb_order := None |}].
+Proof. exact pdb_roundtrip_bond_fix_kept. Qed.
+Print Assumptions pdb_roundtrip_bond_fixed_kept.
+
+(* two hubs with five partners each: as found 8 of the 9 bonds come back, repaired all 9 *)
+Theorem pdb_conect_continuation_current_refuted :
+  let st := run flags_cur pdb_ops5 in
+  option_map (fun v => length (vt_bonds v)) (abs (st_heap st) (slot st 1)) = Some 8.
+Proof. exact pdb_conect_del_cur_refuted. Qed.
+Print Assumptions pdb_conect_continuation_current_refuted.
+
+Example pdb_conect_continuation_fixed :
+  let st := run flags_fix pdb_ops5 in
+  option_map (fun v => length (vt_bonds v)) (abs (st_heap st) (slot st 1)) = Some 9.
+Proof. exact pdb_conect_del_fix_witness. Qed.
+Print Assumptions pdb_conect_continuation_fixed.
+
+(* ---------------------------------------------------------------- ownership lists under delete_atom_by_index *)
+(* wf_inv (ownership lists and counters consistent under EVERY op history) is not proved in general:
+   what is proved is that each transformation returns a well-formed result (copy_wf, subset_abs +
+   subset_spec_normal, build_from_abs, join_abs_partial) and that edits do not reach other topologies
+   (edit_frame).  As found the invariant is false: *)
+Theorem wf_inv_current_refuted_delete_by_equality :
+  let st := run flags_cur del_ops in lists_agree (st_heap st) (slot st 0) = false.
+Proof. exact delete_cur_breaks_ownership. Qed.
+Print Assumptions wf_inv_current_refuted_delete_by_equality.
+
+Theorem wf_inv_current_refuted_dangling_bond :
+  let st := run flags_cur del_ops2 in bonds_owned (slot st 0) = false.
+Proof. exact delete_cur_leaves_dangling_bond. Qed.
+Print Assumptions wf_inv_current_refuted_dangling_bond.
+
+Example wf_inv_fixed_delete_witnesses :
+  (let st := run flags_fix del_ops in lists_agree (st_heap st) (slot st 0) = true) /\
+  (let st := run flags_fix del_ops2 in bonds_owned (slot st 0) = true).
+Proof. exact (conj delete_fix_keeps_ownership delete_fix_drops_bond). Qed.
+Print Assumptions wf_inv_fixed_delete_witnesses.
 
 (* ---------------------------------------------------------------- == and hash *)
 (* repaired __hash__: for all topologies whose _atoms list is index-consistent, == implies equal
